@@ -275,7 +275,8 @@ def run_check(pid, tier, seed, replay=None, n_override=None):
         return run_check_locked(pid, tier, seed, replay, n_override)
     # properties with regenerated model parts write into the shared coq/<Group>/ directory:
     # one run at a time, and a run against a scratch tree restores the files from /repo
-    with Lock("run-" + cfg["group"]):
+    # "gen_lock" names the lock when two properties' translators write the same directories
+    with Lock("run-" + cfg.get("gen_lock", cfg["group"])):
         try:
             return run_check_locked(pid, tier, seed, replay, n_override)
         finally:
